@@ -339,7 +339,8 @@ def value_of_type(I, ty, env):
             f = I.prog.closure_fn(inner)
             if f is None:
                 raise Unsupported('closure body not found: ' + inner)
-            return Closure(f, [], [], inner)
+            from interp import set_closure_env
+            return set_closure_env(Closure(f, [], [], inner), dict(env or {}))
         m = re.match(r'^((?:nom::)?[\w:]*?)(\w+)<', inner)
         if not m:
             raise Unsupported('cannot rebuild zero-sized closure ' + ty[:120])
